@@ -81,6 +81,13 @@ func (p *PowerBasis) genPower(n int, lazy, rescale bool, eval schemes.Evaluator)
 
 	if p.Value[n] == nil {
 
+		// A power whose generation failed is not kept: it would be taken for an already generated one
+		defer func() {
+			if err != nil {
+				delete(p.Value, n)
+			}
+		}()
+
 		a, b := SplitDegree(n)
 
 		// Recurses on the given indexes
@@ -95,20 +102,21 @@ func (p *PowerBasis) genPower(n int, lazy, rescale bool, eval schemes.Evaluator)
 			return false, fmt.Errorf("genpower: p.Value[%d]: %w", b, err)
 		}
 
+		// Previous non-relinearized powers that are required to compute the target power are relinearized
+		if p.Value[a].Degree() == 2 {
+			if err = eval.Relinearize(p.Value[a], p.Value[a]); err != nil {
+				return false, fmt.Errorf("genpower: eval.Relinearize(p.Value[%d], p.Value[%d]): %w", a, a, err)
+			}
+		}
+
+		if p.Value[b].Degree() == 2 {
+			if err = eval.Relinearize(p.Value[b], p.Value[b]); err != nil {
+				return false, fmt.Errorf("genpower: eval.Relinearize(p.Value[%d], p.Value[%d]): %w", b, b, err)
+			}
+		}
+
 		// Computes C[n] = C[a]*C[b]
 		if lazy {
-
-			if p.Value[a].Degree() == 2 {
-				if err = eval.Relinearize(p.Value[a], p.Value[a]); err != nil {
-					return false, fmt.Errorf("genpower (lazy): eval.Relinearize(p.Value[%d], p.Value[%d]): %w", a, a, err)
-				}
-			}
-
-			if p.Value[b].Degree() == 2 {
-				if err = eval.Relinearize(p.Value[b], p.Value[b]); err != nil {
-					return false, fmt.Errorf("genpower (lazy): eval.Relinearize(p.Value[%d], p.Value[%d]): %w", b, b, err)
-				}
-			}
 
 			if rescaleA {
 				if err = eval.Rescale(p.Value[a], p.Value[a]); err != nil {
